@@ -6,6 +6,7 @@ import (
 	"fmt"
 	"math"
 	"sort"
+	"strconv"
 	"testing"
 
 	ics23 "github.com/cosmos/ics23/go"
@@ -1098,7 +1099,25 @@ func (r *c30Run) run(c *c30Case, cfg c30Cfg) error {
 	return r.sameVersions("final")
 }
 
-func c30Exec(ctx *vk.Ctx, c c30Case) error {
+// c30ASCII keeps violation messages printable: errors returned by the code under
+// test may embed raw key bytes.
+func c30ASCII(err error) error {
+	if err == nil {
+		return nil
+	}
+	msg := err.Error()
+	for i := 0; i < len(msg); i++ {
+		if b := msg[i]; (b < 0x20 && b != '\n' && b != '\t') || b > 0x7e {
+			q := strconv.QuoteToASCII(msg)
+			return errors.New(q[1 : len(q)-1])
+		}
+	}
+	return err
+}
+
+func c30Exec(ctx *vk.Ctx, c c30Case) error { return c30ASCII(c30ExecRaw(ctx, c)) }
+
+func c30ExecRaw(ctx *vk.Ctx, c c30Case) error {
 	a := &c30Run{ctx: ctx, classes: map[string]bool{}}
 	if err := a.run(&c, c.Cfg); err != nil {
 		return err
